@@ -19,7 +19,10 @@
 struct vlock { int st, ends, aborts; unsigned char up, invec; } __attribute__((packed));
 struct vnode { struct vnode *parent; struct vlock lock; unsigned long numElements; unsigned char position; unsigned char inner;
                int keys[VX_MAXK]; struct vnode *children[VX_MAXK + 1]; } __attribute__((packed));
-struct vvec { unsigned long n; } __attribute__((packed));
+#ifndef VX_VEC_CAP
+#define VX_VEC_CAP 6
+#endif
+struct vvec { struct vnode *d[VX_VEC_CAP]; unsigned long n; } __attribute__((packed));
 typedef struct vnode VN;
 #define N(p) ((VN *)(p))
 #define MAXK VX_MAXK
@@ -32,6 +35,8 @@ _Bool nondet_bool(void); int nondet_int(void); unsigned long nondet_ulong(void);
 int g_trylock = -1;                       /* outcome of try_start_write on the left sibling: -1 nondeterministic, 0/1 fixed by a case-split harness */
 _Bool vx_nondet_bool(void) { return g_trylock < 0 ? nondet_bool() : (g_trylock != 0); }
 void vx_vec_mark(void *x) { N(x)->lock.invec = 1; }
+void vx_upgraded(void) {}
+_Bool vx_restart(void) { return nondet_bool(); }
 _Bool vx_vec_has(const void *x) { return N(x)->lock.invec == 1; }
 void *vx_memcpy(void *d, const void *s, unsigned long n) { return memcpy(d, s, n); }
 static void *vx_alloc(void) {
@@ -292,6 +297,7 @@ void harness_layout(void) {
     __CPROVER_assert(h_layout(7) == offsetof(VN, inner), "layout: offset of inner");
     __CPROVER_assert(h_layout(8) == sizeof(struct vlock), "layout: sizeof(lock stub)");
     __CPROVER_assert(h_layout(9) == offsetof(struct vlock, invec), "layout: offset of lock.invec");
+    __CPROVER_assert(h_layout(10) == sizeof(struct vvec) && h_layout(11) == offsetof(struct vvec, n), "layout: locked_nodes scaffold");
     CANARY;
 }
 
